@@ -171,31 +171,48 @@ Fixpoint parse_load (fuel : nat) (src : list ymod) (stack : list mkey) (c : ctx)
       end
   end.
 
-(* lys_set_features() with an explicit list (never NULL / `*` in ly_ctx_new_yldata) *)
+(* the features argument of ly_ctx_load_module / lys_set_implemented / lys_set_features:
+   NULL = do not touch the features, {`*`, NULL} = enable all, any other array = enable exactly these (the empty
+   array disables all).  ly_ctx_new_yldata always passes an array, also for an entry without feature leaves. *)
+Inductive fspec :=
+| F_keep
+| F_all
+| F_list (names : list bytes).
+
 Definition has_feature (h : hmod) (n : bytes) : bool :=
   existsb (fun f => beq_bytes n (f_name f)) (concat (groups h)).
 Definition set_feats (names : list bytes) (fs : list feat) : list feat :=
   map (fun f => mkfeat (f_name f) (existsb (beq_bytes (f_name f)) names)) fs.
 Definition set_features (h : hmod) (impl : bool) (names : list bytes) : hmod :=
   mkhmod (h_name h) (h_rev h) impl (set_feats names (h_feats h)) (map (set_feats names) (h_subs h)).
+Definition all_feats (fs : list feat) : list feat := map (fun f => mkfeat (f_name f) true) fs.
+(* lys_set_features(pmod, features) and the implemented flag *)
+Definition apply_fspec (h : hmod) (impl : bool) (fs : fspec) : hmod :=
+  match fs with
+  | F_keep => mkhmod (h_name h) (h_rev h) impl (h_feats h) (h_subs h)
+  | F_all => mkhmod (h_name h) (h_rev h) impl (all_feats (h_feats h)) (map all_feats (h_subs h))
+  | F_list names => set_features h impl names
+  end.
+Definition fspec_ok (h : hmod) (fs : fspec) : bool :=
+  match fs with F_list names => forallb (has_feature h) names | _ => true end.
 
 (* _lys_set_implemented(mod, features) on the module with key k *)
-Definition set_implemented (c : ctx) (k : mkey) (names : list bytes) : res ctx :=
+Definition set_implemented (c : ctx) (k : mkey) (fs : fspec) : res ctx :=
   match find_key k c with
   | None => Err E_NOTFOUND
   | Some m =>
-      if negb (forallb (has_feature (y_mod m)) names) then Err E_FEATURE
+      if negb (fspec_ok (y_mod m) fs) then Err E_FEATURE
       else if negb (y_impl m) && existsb (fun x => named (fst k) x && y_impl x) c then Err E_DENIED
       else Ok (map (fun x => if beq_key k (key_of x)
-                             then mkymod (set_features (y_mod x) true names) (y_ns x) (y_imports x) else x) c)
+                             then mkymod (apply_fspec (y_mod x) true fs) (y_ns x) (y_imports x) else x) c)
   end.
 
 (* ly_ctx_load_module(ctx, name, revision, features) *)
 Definition load_module (fuel : nat) (src : list ymod) (c : ctx) (name : bytes) (rev : option bytes)
-    (names : list bytes) : res ctx :=
+    (fs : fspec) : res ctx :=
   match parse_load fuel src [] c (name, rev) with
   | Err e => Err e
-  | Ok (c1, k) => set_implemented c1 k names
+  | Ok (c1, k) => set_implemented c1 k fs
   end.
 
 (* ly_ctx_new_yldata(): every module entry of the first module-set is loaded with its revision and features;
@@ -204,7 +221,8 @@ Fixpoint rebuild_from (fuel : nat) (src : list ymod) (c : ctx) (es : list yl_mod
   match es with
   | [] => Ok c
   | e :: r =>
-      match load_module fuel src c (ym_name e) (ym_rev e) (ym_features e) with
+      (* feature_arr is never NULL: an entry without feature leaves gives the empty array = disable all *)
+      match load_module fuel src c (ym_name e) (ym_rev e) (F_list (ym_features e)) with
       | Ok c' => rebuild_from fuel src c' r
       | Err e' => Err e'
       end
@@ -212,6 +230,18 @@ Fixpoint rebuild_from (fuel : nat) (src : list ymod) (c : ctx) (es : list yl_mod
 
 Definition rebuild (y : yl) (src : list ymod) (c0 : ctx) : res ctx :=
   rebuild_from (S (length src)) src c0 (yl_modules y).
+
+(* a context that was populated before the rebuild: ly_ctx_load_module calls, a failing one leaves the context as it
+   was (lys_unres_glob_revert) *)
+Fixpoint preload (src : list ymod) (c : ctx) (ops : list (bytes * option bytes * fspec)) : ctx :=
+  match ops with
+  | [] => c
+  | (n, r, fs) :: rest =>
+      match load_module (S (length src)) src c n r fs with
+      | Ok c' => preload src c' rest
+      | Err _ => preload src c rest
+      end
+  end.
 
 (* the internal modules every context starts with (context.c:61-77), none has a feature; their imports are
    resolved among themselves when the context is created and are not needed again *)
